@@ -82,6 +82,13 @@ CHECKS.update({
    SVM + " Metaplex metadata CPI is a recording stub (DESIGN §7).", "DESIGN.md §3 C18"),
 })
 
+CHECKS.update({
+ "C10": (A, "model_checking",
+   "exhaustive enumeration of initialized-tick layouts (all subsets up to a size bound of 15 boundary slots x 3 arrays) x start states x swap sizes x packagings, every swap executed on the real program; reference traversal from the H2 crossing record; packaging differential",
+   "For every layout / start state (between ticks, on a tick, shifted) / direction / size in the enumerated space: the crossing record equals exactly the initialized ticks between start and end price, in order, once each; outcome identical across fixed/dynamic/uncreated arrays, account permutations, duplicates and supplemental arrays; arrays that do not reach far enough fail, foreign-pool arrays are rejected. 6 worlds incl. arrays at both tick bounds and a full-range-only pool.",
+   SVM + " Hook H2 is trusted for the crossing record; candidate ticks sit on five slots per array; an internal wall cap may cut the largest layouts (then exhaustive=false is reported).", "DESIGN.md §3 C10"),
+})
+
 NOT_APPLICABLE = {
 }
 PENDING_REASON = "check not built yet (build in progress; see DESIGN.md §8)"
